@@ -1,5 +1,6 @@
 import PyomaVerif.Model.MpePy
 import PyomaVerif.Lemmas.MpePy
+import PyomaVerif.Lemmas.MpePlscf
 import PyomaVerif.Props.C11
 /-!
 # C11 — every Python value of `order`, and the shapes of the returned arrays
@@ -416,6 +417,88 @@ theorem C11_plscf_shapes (deltaf : Rat) {order : PyOrder} (hex : order.Explicit)
   rw [hp.fn]
   simp [plscfShapes, shapesOf, npArrayShape_scalar, hp.fn, hp.xi, hphi]
 
+/-- **pLSCF, every order form** (the `find_min` branch included, which may return frequencies without parameters):
+    `Fn.shape = (n,)`, `Xi.shape = (k,)`, `Phi.shape = (d, k)` or `(0,)`, with `k = n` or `k = 0`. -/
+theorem C11_plscf_shapes_all (deltaf : Rat) {order : PyOrder} {out : MpeOut}
+    (h : plscfMpePy freq Fn Xi Phi order Lab deltaf rtol = .ok out) :
+    plscfShapes out =
+        { fn := [out.acc.fn.length], xi := [out.acc.xi.length]
+          phi := if out.acc.xi.length = 0 then [0] else [Phi.d, out.acc.xi.length], cov := none } ∧
+      (out.acc.xi.length = out.acc.fn.length ∨ out.acc.xi.length = 0) := by
+  -- it suffices that `xi` and `phi` are parallel with `Phi.d`-component rows
+  have key : ∀ out : MpeOut, out.acc.phi.length = out.acc.xi.length → (∀ r ∈ out.acc.phi, r.length = Phi.d) →
+      plscfShapes out = { fn := [out.acc.fn.length], xi := [out.acc.xi.length]
+                          phi := if out.acc.xi.length = 0 then [0] else [Phi.d, out.acc.xi.length], cov := none } := by
+    intro out h1 h2
+    have hphi := npArrayShape_vector out.acc.phi Phi.d h2
+    rw [h1] at hphi
+    simp [plscfShapes, npArrayShape_scalar, hphi]
+  cases order with
+  | other =>
+    unfold plscfMpePy at h
+    simp only at h
+    split at h
+    · simp only [pure, Except.pure, Except.ok.injEq] at h; subst h
+      exact ⟨key _ rfl (fun r hr => absurd hr List.not_mem_nil), Or.inl rfl⟩
+    · cases h
+  | bool b =>
+    unfold plscfMpePy at h
+    cases freq with
+    | nil =>
+      simp only [pure, Except.pure, Except.ok.injEq] at h; subst h
+      exact ⟨key _ rfl (fun r hr => absurd hr List.not_mem_nil), Or.inl rfl⟩
+    | cons f rest => exact absurd h (boolFirst_not_ok Fn f b out)
+  | int o =>
+    obtain ⟨_, hacc⟩ := C11_plscf_py_whole freq Fn Xi Phi Lab rtol deltaf (order := .int o) trivial h
+    have hp := Parallel.ofCells Fn Xi Phi none (mpeCells Fn (chkOwn rtol) (reqsOfPy Fn.c freq (.int o)))
+    rw [← hacc] at hp
+    exact ⟨key out (by rw [hp.phi, hp.xi]) hp.rows, Or.inl (by rw [hp.xi, hp.fn])⟩
+  | list os =>
+    obtain ⟨_, hacc⟩ := C11_plscf_py_whole freq Fn Xi Phi Lab rtol deltaf (order := .list os) trivial h
+    have hp := Parallel.ofCells Fn Xi Phi none (mpeCells Fn (chkOwn rtol) (reqsOfPy Fn.c freq (.list os)))
+    rw [← hacc] at hp
+    exact ⟨key out (by rw [hp.phi, hp.xi]) hp.rows, Or.inl (by rw [hp.xi, hp.fn])⟩
+  | findMin =>
+    have h' : plscfMpeWith (chkOwn rtol) 7 freq Fn Xi Phi .findMin Lab deltaf rtol = .ok out := h
+    cases Lab with
+    | none => simp [plscfMpeWith, throw, throwThe, MonadExceptOf.throw] at h'
+    | some L =>
+      by_cases hne : freq = []
+      · subst hne
+        simp only [plscfMpeWith, List.isEmpty_nil, if_true, pure, Except.pure, Except.ok.injEq] at h'
+        subst h'
+        exact ⟨key _ rfl (fun r hr => absurd hr List.not_mem_nil), Or.inl rfl⟩
+      · by_cases hc : 0 < Fn.c
+        · cases hw : plscfWhile (aggOpen Fn L 7 freq deltaf) freq rtol Fn.c 0 with
+          | mk iiExit u =>
+            rw [plscfMpeWith_findMin_eq (chkOwn rtol) 7 freq Fn Xi Phi L deltaf rtol hne hc iiExit u hw] at h'
+            generalize (if iiExit = 0 then Fn.c - 1 else iiExit - 1) = col at h'
+            split at h'
+            · cases hp : plscfPick (aggOpen Fn L 7 freq deltaf) Xi Phi col u { fn := u.map some } with
+              | error e => rw [hp] at h'; cases h'
+              | ok acc =>
+                rw [hp] at h'
+                simp only [Except.ok.injEq] at h'
+                subst h'
+                obtain ⟨h1, h2, h3, h4⟩ := plscfPick_shape Xi Phi _ _ u _ acc hp
+                have hxi : acc.xi.length = u.length := by simpa using h2
+                have hph : acc.phi.length = u.length := by simpa using h3
+                refine ⟨key _ (by simp only; rw [hxi, hph]) ?_, Or.inl ?_⟩
+                · intro r hr
+                  rcases h4 r hr with hm | hl
+                  · exact absurd hm List.not_mem_nil
+                  · exact hl
+                · simp only; rw [hxi, h1]; simp
+            · simp only [Except.ok.injEq] at h'
+              subst h'
+              exact ⟨key _ rfl (fun r hr => absurd hr List.not_mem_nil), Or.inr rfl⟩
+        · have hc0 : Fn.c = 0 := by omega
+          have hemp : freq.isEmpty = false := by
+            cases freq with
+            | nil => exact absurd rfl hne
+            | cons a t => rfl
+          simp [plscfMpeWith, hemp, aggOpen, hc0, throw, throwThe, MonadExceptOf.throw] at h'
+
 /-! ### non-vacuity -/
 
 -- `order = -1` on the 3×3 example table is its last column (index 2); `order_out = -1`
@@ -437,5 +520,9 @@ example : (ssiMpePy [2, 5] exFn exXi exPhi .findMin (some exLab) (1 / 20) none).
 -- pLSCF, explicit negative order
 example : (plscfMpePy [2, 5] exFn exXi exPhi (.int (-3)) none (1 / 20) (1 / 20)).toOption.map
       (fun out => (plscfShapes out, out.orderOut)) = some (⟨[1], [1], [2, 1], none⟩, .int (-3)) := by decide +kernel
+
+-- pLSCF find_min on the stable poles labelled 7 (what the pinned routine selects): found, (2,), (2,), (2, 2)
+example : (plscfMpePy [2, 5] exFn exXi exPhi .findMin (some ⟨3, 3, fun r o => 7 * exLab.e r o⟩) (1 / 20) (1 / 20)).toOption.map
+      (fun out => (plscfShapes out, out.orderOut)) = some (⟨[2], [2], [2, 2], none⟩, .int 1) := by decide +kernel
 
 end PV.C11
